@@ -73,7 +73,26 @@ def gen_tables():
     return sh([sys.executable, gt], env=env, timeout=600)
 
 
+def write_coqproject():
+    """_CoqProject = every .v under coq/ except Properties/ (compiled afresh by each check)."""
+    files = []
+    for root, _, fs in os.walk(COQ):
+        rel = os.path.relpath(root, COQ)
+        if rel.startswith('Properties') or rel.startswith('scratch'):
+            continue
+        for f in sorted(fs):
+            if f.endswith('.v'):
+                files.append(os.path.normpath(os.path.join(rel, f)))
+    files.sort()
+    txt = ('-Q . PLV\n-arg -w -arg -notation-overridden,-deprecated-hint-without-locality,'
+           '-deprecated-instance-without-locality,-ambiguous-paths\n' + '\n'.join(files) + '\n')
+    p = os.path.join(COQ, '_CoqProject')
+    if not os.path.exists(p) or open(p).read() != txt:
+        open(p, 'w').write(txt)
+
+
 def make_all(targets=None):
+    write_coqproject()
     rc, out = sh('coq_makefile -f _CoqProject -o Makefile >/dev/null 2>&1; timeout 3000 make -j%d %s 2>&1 | tail -40'
                  % (NPROC, ' '.join(targets or [])), cwd=COQ, timeout=3100)
     ok = ('Error' not in out) and ('***' not in out)
